@@ -736,6 +736,18 @@ func mutationCases(rng *hx.Rng, st *signedTx, allBits bool) {
 	add("s->N-s", func(r *raw) { r.S.Sub(curveN, r.S) })
 	add("r->N-r", func(r *raw) { r.R.Sub(curveN, r.R) })
 	add("malleate(s->N-s,v^1)", func(r *raw) { r.S.Sub(curveN, r.S); flipRid(r.V) })
+	// V with bits above the low byte set: byte(V-27) would still be the recovery id (V + 256k), beyond a machine word, and
+	// every single-bit flip of V (bits 0..70): a changed V must never keep the sender.
+	for _, k := range []*big.Int{big1, big2, big.NewInt(255), pow2(8), pow2(24), pow2(55)} {
+		k := k
+		add("v+256*"+hn(k), func(r *raw) { r.V.Add(r.V, new(big.Int).Mul(k, big.NewInt(256))) })
+	}
+	add("v+2^63", func(r *raw) { r.V.Add(r.V, pow2(63)) })
+	add("v+2^64", func(r *raw) { r.V.Add(r.V, pow2(64)) })
+	for bit := 0; bit <= 70; bit++ {
+		bit := bit
+		add(fmt.Sprintf("v^bit%d", bit), func(r *raw) { r.V.SetBit(r.V, bit, r.V.Bit(bit)^1) })
+	}
 	for _, m := range ms {
 		if m.r.V.Sign() < 0 || m.r.R.Sign() < 0 || m.r.S.Sign() < 0 || m.r.String() == st.r.String() {
 			continue // not representable / not a change
@@ -807,7 +819,9 @@ func latticeCases(rng *hx.Rng, thorough bool) {
 		vs := []*big.Int{big0, big1, big.NewInt(26), big.NewInt(27), big.NewInt(28), big.NewInt(29), big.NewInt(35), big.NewInt(36), big.NewInt(255), big.NewInt(256),
 			new(big.Int).Sub(base, big2), new(big.Int).Sub(base, big1), base, new(big.Int).Add(base, big1), new(big.Int).Add(base, big2), new(big.Int).Add(base, big.NewInt(3)),
 			new(big.Int).Sub(new(big.Int).Mul(c, big2), big.NewInt(19)), new(big.Int).Sub(new(big.Int).Mul(c, big2), big.NewInt(20)), // V - 2c - 8 = -27 / -28
-			pow2(64), new(big.Int).Sub(pow2(64), big1), new(big.Int).Add(pow2(64), big.NewInt(27))}
+			pow2(64), new(big.Int).Sub(pow2(64), big1), new(big.Int).Add(pow2(64), big.NewInt(27)),
+			big.NewInt(283), big.NewInt(284), big.NewInt(27 + 512), big.NewInt(28 + 65536), new(big.Int).Add(pow2(32), big.NewInt(27)), new(big.Int).Add(pow2(63), big.NewInt(28)),
+			new(big.Int).Add(base, big.NewInt(256)), new(big.Int).Add(base, pow2(40))}
 		st := signCase(rng, sE, u, key)
 		for _, v := range vs {
 			if v.Sign() < 0 {
